@@ -45,7 +45,10 @@ def add_defaults(doc, r, p=0.35):
                 continue
             try:
                 v = ig.inst(ps, 0, minimal=r.random() < 0.3)
-                if (is_map or ps.get("type") == "array") and not v:
+                if r.random() < 0.2 and "enum" not in ps:
+                    # the type's own zero value as the declared default ("" / 0 / false / [] / {})
+                    v = {"string": "", "integer": 0, "boolean": False, "number": 0.5, "array": [], "object": {}}[ps["type"]]
+                elif (is_map or ps.get("type") == "array") and not v:
                     v = ig.inst(ps, 0, minimal=False)   # prefer a NON-empty default for containers
             except Exception:
                 continue
